@@ -210,3 +210,10 @@ package state
 //@   trusted
 //@   ensures result != nil && big(result) == st_balance(self, addr)
 //@   assigns nothing
+
+// Trusted observer (C01): the intermediate root is a function of the state and the deletion flag;
+// computing it finalises the state but does not modify big.Int objects the caller holds.
+//@ func StateDB.IntermediateRoot
+//@   trusted
+//@   ensures result == stateroot(self, deleteEmptyObjects)
+//@   keeps big
